@@ -343,7 +343,7 @@ def _big(ctx: Ctx, item):
 
 
 def run(ctx: Ctx):
-    n = 40 if ctx.quick else 500
+    n = 40 if ctx.quick else 6000
     pmap(ctx, _work, [(n, 5000)] * 16)
     pmap(ctx, _scenarios, [(0,), (1,)])
     sizes = [200_000, 100_001] if ctx.quick else [1_000_000, 2_000_000, 5_000_000, 1_000_001]
